@@ -154,12 +154,32 @@ pub fn spec(id: &str) -> Option<Spec> {
             real: vec!["virtio_drivers::device::net::{VirtIONetRaw, VirtIONet, RxBuffer, TxBuffer}", "VirtQueue"],
             stubbed: vec!["device: reference NIC (sim/src/devices/net.rs)", "platform: SimHal"],
         },
+        "C20" => Spec {
+            id: "C20",
+            level: "exploration",
+            rule: "seeded operation sequences with arbitrary parameters on VirtIOGpu (resolution, framebuffer setup/teardown, flush, cursor, EDID with random 1024-byte blobs), VirtIOSound (info, set_params, prepare/start/stop/release, jack remap, blocking and non-blocking playback with completions in order within a stream), VirtIORng, VirtIORtc and VirtIO9p over model/MMIO/PCI transports; success batches and error-response batches are separate; non-trivial per batch: a framebuffer was set up / playback longer than the queue / entropy returned / a capability decoded / a 9P response returned",
+            batches: vec![
+                b("gpu", scen::c20::gpu_run, 4000, 100_000),
+                b("gpu_faulty", scen::c20::gpu_faulty, 3000, 60_000),
+                b("sound", scen::c20::sound_run, 4000, 100_000),
+                b("sound_faulty", scen::c20::sound_faulty, 3000, 60_000),
+                b("rng", scen::c20::rng_run, 2000, 40_000),
+                b("rtc", scen::c20::rtc_run, 2000, 40_000),
+                b("rtc_faulty", scen::c20::rtc_faulty, 2000, 40_000),
+                b("9p", scen::c20::p9_run, 2000, 40_000),
+                b("9p_faulty", scen::c20::p9_faulty, 2000, 40_000),
+            ],
+            extras: vec![],
+            assumptions: vec!["resolutions bounded (<= 128x128) so that width*height*4 stays far below 2^32 and allocations stay small", "after a device error the run ends (driver state after an error is outside the statement)", "EDID decoding is a pure function; it is covered here only as part of device responses"],
+            real: vec!["virtio_drivers::device::gpu::{VirtIOGpu, Edid}", "virtio_drivers::device::sound::VirtIOSound", "virtio_drivers::device::rng::VirtIORng", "virtio_drivers::device::rtc::VirtIORtc", "virtio_drivers::device::virtio_9p::VirtIO9p", "VirtQueue / OwningQueue"],
+            stubbed: vec!["devices: reference GPU, sound, entropy, RTC, 9P (sim/src/devices/{gpu,sound,simple}.rs)", "platform: SimHal"],
+        },
         _ => return None,
     };
     Some(s)
 }
 
-pub const ALL: &[&str] = &["C01", "C02", "C03", "C04", "C05", "C06", "C10", "C14", "C15", "C16", "C19"];
+pub const ALL: &[&str] = &["C01", "C02", "C03", "C04", "C05", "C06", "C10", "C14", "C15", "C16", "C19", "C20"];
 
 pub fn find_batch(prop: &str, batch: &str) -> Option<fn()> {
     spec(prop)?.batches.iter().find(|b| b.name == batch).map(|b| b.f)
